@@ -13,7 +13,7 @@ CLAIMED = {
   technique="static analysis: must-precede / error-outcome dataflow over go/cfg + typed AST, who-may-call table",
   ref="§4 C01"),
  "C04": dict(
-  text="Structural clauses of the hinted-handoff queue contract decided on every path: append acknowledged only after write+fsync (buffered path is a recorded known finding), flush before close and before tail rotation, Empty() a function of queue content and never of the file cursor, one agreed at-end predicate, SendWrite advances only after the target answered / EOF / undecodable block, footer written and synced before the head offset moves, frozen who-may-discard table with a guarded inactive-processor purge, gap-free batch split, segment list sorted by numeric id with head=first/tail=last.",
+  text="Structural clauses of the hinted-handoff queue contract decided on every path: append acknowledged only after write+fsync (buffered path is a recorded known finding), flush before close and before tail rotation, Empty() a function of queue content and never of the file cursor, one agreed at-end predicate, SendWrite advances only after the target answered / EOF / undecodable block, footer written and synced before the head offset moves, frozen who-may-discard table with a guarded inactive-processor purge, gap-free batch split, segment list sorted by numeric id with head=first/tail=last, and every caller of addSegment moves queue.tail to the new segment before it can return success (found the dangling tail after an age purge, fixed in f6a12a7).",
   note="Does not decide ordering across concurrent appenders, crash images of torn blocks, or size-limit arithmetic. One known finding (buffered append acknowledged before durable) is listed in known_findings.json.",
   technique="static analysis: outcome dataflow + path exploration over go/cfg, who-may-call table, comparison-shape agreement",
   ref="§4 C04"),
